@@ -9,7 +9,7 @@ use crate::{
 pub fn cells(tier: Tier) -> Vec<CellPlan> {
     let o = Oracles { c03: true, ..Default::default() };
     let q = tier.quick();
-    let env = Env { hold_acks: false, hold_updates: 2, mutations: MutMenu::Hold, leftover_choice: false };
+    let env = Env { hold_acks: false, hold_updates: 2, mutations: MutMenu::Hold, leftover_choice: false, lossy: false };
     let mut v = Vec::new();
     let mut add = |mut c: crate::repl::ReplCell, dev_q: u32, dev_t: u32, rounds_t: usize, w: f64| {
         c.oracles = o.clone();
@@ -24,6 +24,8 @@ pub fn cells(tier: Tier) -> Vec<CellPlan> {
     add(cells::visibility("C03", Vis::Blacklist, 1), 1, 2, 4, 2.0);
     add(cells::visibility("C03", Vis::Whitelist, 1), 1, 2, 4, 2.0);
     add(cells::visibility("C03", Vis::Blacklist, 2), 1, 1, 3, 2.0);
+    add(cells::vis_empty("C03", Vis::Whitelist), 1, 2, 4, 1.0);
+    add(cells::vis_empty("C03", Vis::Blacklist), 1, 2, 4, 1.0);
     add(cells::refs("C03"), 1, 2, 4, 2.0);
     add(cells::hierarchy("C03"), 1, 2, 4, 1.0);
     add(cells::rates("C03"), 1, 2, 4, 1.0);
